@@ -1,4 +1,4 @@
-import TarsModel.Proofs.ServerConnLeak
+import TarsModel.Proofs.AppShutdown
 
 /-!
 # C12 — Graceful shutdown answers every request already received
@@ -300,6 +300,83 @@ theorem C12_oneway_leak_pool_counterexample :
       · exact hnc h1
       · exact hst.1 h1
     simp [step, leakCfg, repaired, hnot]
+
+/-! ## The application: `graceShutdown` calls `Shutdown` on every adapter's server -/
+
+section App
+open Tars.AppShutdown
+
+/-- **Every adapter is shut down.** The application is a list of independent server LTSs (one
+`transport.TarsServer` per tars adapter) plus the loop of `application.graceShutdown` that spawns one
+goroutine per adapter. When the server is handed to the goroutine as an argument (the code), then for
+every number of adapters, every interleaving of the loop, the goroutines and all the steps of all the
+adapters: (a) every adapter's component is a reachable state of the server LTS, so every per-server
+theorem of this file applies to every adapter; (b) goroutine j calls `Shutdown` on adapter j and on
+no other; (c) once the loop is over and every goroutine has made its call, `Shutdown` has been called
+on EVERY adapter. -/
+theorem C12_app_all_adapters (cfg : Cfg) (n : Nat) (acts : List AAction) (s : AState)
+    (hrun : arun .argument cfg n acts = some s) :
+    (∀ (k : Nat) (st : State), s.servers[k]? = some st → Reachable cfg st) ∧
+    (∀ (j : Nat) (g : GoR), s.gos[j]? = some g → g.target = none ∨ g.target = some j) ∧
+    (s.i = n → (∀ g ∈ s.gos, g.target ≠ none) → ∀ k, k < n → k ∈ s.shutdownOn) := by
+  obtain ⟨hA, hI⟩ := arun_inv (ainv_init cfg n) (arginv_init n) hrun
+  refine ⟨hA.reach, fun j g hg => (hI.bound j g hg).2.1, ?_⟩
+  intro hi hall k hk
+  have hlt : k < s.gos.length := by rw [hA.len, hi]; exact hk
+  have hg : s.gos[k]? = some s.gos[k] := List.getElem?_eq_getElem hlt
+  obtain ⟨_, h2, h3⟩ := hI.bound k _ hg
+  rcases h2 with h2 | h2
+  · exact absurd h2 (hall _ (List.getElem_mem hlt))
+  · exact h3 h2
+
+/-- non-vacuity: three adapters, the goroutines run in reverse order after the loop -/
+example : ∃ s, arun .argument (repaired none) 3 [.iter, .iter, .iter, .call 2, .call 0, .call 1] = some s ∧
+    s.i = 3 ∧ s.shutdownOn = [2, 0, 1] ∧ (s.servers.map (·.spc)) = [.called, .called, .called] := by
+  refine ⟨_, rfl, ?_, ?_, ?_⟩ <;> decide
+
+/-- hence the safety part of C12 holds for every adapter of an application (current code) -/
+theorem C12_app_adapter_answered (pool : Option (Nat × Nat)) (n : Nat) (acts : List AAction) (s : AState)
+    (hrun : arun .argument (repaired pool) n acts = some s) (a : Nat) (st : State)
+    (hst : s.servers[a]? = some st) (c : Nat) (k : Conn) (hk : st.conns[c]? = some k)
+    (hcl : k.srvClosed = true) : k.buf = [] ∧ ∀ q ∈ k.reqs, q.st = .done true := by
+  have hr := (C12_app_all_adapters _ n acts s hrun).1 a st hst
+  have hI := ginv_reachable hr
+  have hK := kick_reachable (cfg := repaired pool) rfl hr c k hk
+  have hpc := hK.closedPc hcl
+  refine ⟨(hI.conns c k hk).bufNil (by simp [hpc]), ?_⟩
+  intro q hq
+  exact hI.safe (by simp [repaired]) c k hk hcl q hq (hK.allOpen q hq)
+
+/-- **The captured range variable.** If the goroutine's function literal captures the loop variable
+(one variable per loop with `go < 1.22` in go.mod), then with two adapters: both iterations run, then
+both goroutines: both call `Shutdown` on the LAST adapter. `Shutdown` is never called on adapter 0 —
+in every continuation its server stays in the state "Shutdown not called" (no close message, no wake-up,
+no drain), whatever its clients and handlers do. -/
+theorem C12_app_captured_counterexample :
+    ∃ s, arun .loopVariable (repaired none) 2 [.iter, .iter, .call 0, .call 1] = some s ∧
+      s.shutdownOn = [1, 1] ∧
+      (∀ (acts : List AAction) (s' : AState), arunFrom .loopVariable (repaired none) s acts = some s' →
+        ∃ st, s'.servers[0]? = some st ∧ st.spc = .idle) := by
+  have hrun : ∃ s, arun .loopVariable (repaired none) 2 [.iter, .iter, .call 0, .call 1] = some s := ⟨_, rfl⟩
+  obtain ⟨s, hs⟩ := hrun
+  have e := hs
+  simp only [arun, AppShutdown.init] at e
+  have hse : s = _ := (Option.some.inj e).symm
+  have hI : AInv (repaired none) s := arun_ainv (ainv_init _ 2) hs
+  have hsk : Skipped s 0 := by
+    subst hse
+    refine ⟨by decide, by decide, ⟨_, rfl, by decide⟩⟩
+  refine ⟨s, hs, by subst hse; decide, ?_⟩
+  intro acts s' hrun'
+  exact (skipped_run hI hsk hrun').idle
+
+/-- **The current tree passes the server as an argument.** Regenerated on every run from
+`application.graceShutdown` (goroutines whose `Shutdown` receiver is the captured range variable) and
+go.mod; fails to build when a goroutine captures the loop variable. -/
+theorem C12_app_current_tree : treeCapture = .argument := by
+  simp [treeCapture, Consts.appShutdownServerCaptured]
+
+end App
 
 /-! ## The code as found, and what an atomic `CloseIdles` would have given -/
 
